@@ -110,6 +110,22 @@ func misuses() []misuse {
 			k, fq := kid(pkg)
 			return []*spec.Field{spec.F("pstreet", 1, spec.String), spec.FM("bad_field", 2, fq).With(func(a *spec.Ann) { a.Flatten = spec.B(true); a.FlattenPrefix = spec.S("p") })}, []*spec.Message{k}, nil, nil
 		}),
+		// two flattened fields whose prefixes DIFFER and whose promoted keys still coincide (the key is prefix + child name)
+		one("flatten-collision-prefixed-vs-unprefixed", true, []string{"bad_field", "first", "pstreet"}, func(pkg string) ([]*spec.Field, []*spec.Message, []*spec.EnumDef, []*spec.Oneof) {
+			k, fq := kid(pkg)
+			o := &spec.Message{Name: "OtherKid", Fields: []*spec.Field{spec.F("pstreet", 1, spec.String), spec.F("plan", 2, spec.String)}}
+			return []*spec.Field{spec.FM("first", 1, fq).With(func(a *spec.Ann) { a.Flatten = spec.B(true); a.FlattenPrefix = spec.S("p") }), spec.FM("bad_field", 2, "."+pkg+".OtherKid").With(func(a *spec.Ann) { a.Flatten = spec.B(true) })}, []*spec.Message{k, o}, nil, nil
+		}),
+		one("flatten-collision-unprefixed-vs-prefixed", true, []string{"bad_field", "first", "pstreet"}, func(pkg string) ([]*spec.Field, []*spec.Message, []*spec.EnumDef, []*spec.Oneof) {
+			k, fq := kid(pkg)
+			o := &spec.Message{Name: "OtherKid", Fields: []*spec.Field{spec.F("pstreet", 1, spec.String), spec.F("plan", 2, spec.String)}}
+			return []*spec.Field{spec.FM("first", 1, "."+pkg+".OtherKid").With(func(a *spec.Ann) { a.Flatten = spec.B(true) }), spec.FM("bad_field", 2, fq).With(func(a *spec.Ann) { a.Flatten = spec.B(true); a.FlattenPrefix = spec.S("p") })}, []*spec.Message{k, o}, nil, nil
+		}),
+		one("flatten-collision-two-different-prefixes", true, []string{"bad_field", "first", "abstreet"}, func(pkg string) ([]*spec.Field, []*spec.Message, []*spec.EnumDef, []*spec.Oneof) {
+			k, fq := kid(pkg)
+			o := &spec.Message{Name: "OtherKid", Fields: []*spec.Field{spec.F("bstreet", 1, spec.String)}}
+			return []*spec.Field{spec.FM("first", 1, fq).With(func(a *spec.Ann) { a.Flatten = spec.B(true); a.FlattenPrefix = spec.S("ab") }), spec.FM("bad_field", 2, "."+pkg+".OtherKid").With(func(a *spec.Ann) { a.Flatten = spec.B(true); a.FlattenPrefix = spec.S("a") })}, []*spec.Message{k, o}, nil, nil
+		}),
 		one("prefix-without-flatten", true, []string{"bad_field"}, func(pkg string) ([]*spec.Field, []*spec.Message, []*spec.EnumDef, []*spec.Oneof) {
 			k, fq := kid(pkg)
 			return []*spec.Field{spec.FM("bad_field", 1, fq).With(func(a *spec.Ann) { a.FlattenPrefix = spec.S("x_") })}, []*spec.Message{k}, nil, nil
